@@ -180,7 +180,10 @@ def layoutDop : (fuel : Nat) → Ctx → Dop → PVal → (pos p : Nat) → Opti
         | none => some o
         | some bs =>
           if o.next - pos < bs then
-            some { claims := o.claims ++ zeroClaims o.next (pos + bs - o.next), next := pos + bs }
+            -- the padding up to BYTE-SIZE belongs to the structure: it starts behind the last byte the content claims
+            -- (the maximal extent — the members may be listed in any order), not behind the member listed last
+            let ext := o.claims.foldl (fun m cl => max m (cl.idx + 1)) o.next
+            some { claims := o.claims ++ zeroClaims ext (pos + bs - ext), next := pos + bs }
           else some o
   | fuel+1, c, .staticField count itemSize item, .list xs, pos, p =>
     if p ≠ 0 ∨ xs.length ≠ count then none else layoutStatic fuel c item itemSize xs pos
